@@ -236,6 +236,7 @@ func runC01(c *Case) {
 	for sched := 0; sched < nsched && c.Res.Status != "violated"; sched++ {
 		st := newStore()
 		st.Restore(b0)
+		st.PageSize = []int{0, 1, 2}[sched%3] // LIST answers in pages: the opener has to follow continuation tokens
 		var trace []string
 		hidden := map[string]bool{}
 		hide := func(v string) {
